@@ -36,7 +36,7 @@ def meta(tier, seed):
                   "cosine distance (ties: any) and only if that distance <= np.quantile(closest distances, q); arms that were "
                   "not cold are untouched; repeating the call changes nothing; warm sets are monotone in q from one state",
         "bounds": {"arms": 3, "feature_vectors": VECS, "quantiles": QUANTILES, "policies": POLICIES,
-                   "depth": "2 for all 125 feature assignments" + ("" if tier == "quick" else
+                   "depth": "2 for all 125 feature assignments" + (", 3 for the 6 assignments of three distinct directions" if tier == "quick" else
                                                                    ", 3 for the 27 assignments over {(1,0),(0,1),(1,1)}")},
         "assumptions": ["scipy cdist(cosine) and np.quantile are trusted for distances and thresholds",
                         "warm_start calls that raise (all feature vectors zero) are counted, C17 judges them"],
@@ -47,7 +47,8 @@ def shards(tier, seed):
     out = []
     for ln in POLICIES:
         for sub in range(1, 7):          # bit mask of trained arms: non-empty proper subsets of 3 arms
-            out.append({"ln": ln, "sub": sub, "deep": 2 if tier == "quick" else 3, "seed": 131 + seed})
+            out.append({"ln": ln, "sub": sub, "deep": 2 if tier == "quick" else 3, "seed": 131 + seed,
+                        "quick": tier == "quick"})
     return out
 
 
@@ -221,6 +222,9 @@ def run_shard(shard):
     small = [[1, 0], [0, 1], [1, 1]]
     for assign in itertools.product(VECS, repeat=3):
         depth = shard["deep"] if (all(v in small for v in assign) or shard["deep"] == 2) else 2
+        if shard.get("quick") and sorted(assign) == sorted(small):
+            depth = 3                   # quick tier: three calls deep for the assignments of three distinct directions
+                                        # (second-generation warm starts: warm_start, partial_fit, warm_start)
         cfg, cf, trained, history = initial(ln, sub, assign, seed)
         m0 = ops.run_history(cfg, history)
         frontier = [(m0, set(trained), set(), history, False)]
